@@ -102,7 +102,12 @@ func TestC06(t *testing.T) {
 func c12Opts() lab.GenOpts {
 	return lab.GenOpts{
 		Engines: []string{"v1", "v2"}, MaxSources: 2, MaxDests: 3, MaxRecords: 12, MaxProcs: 2,
-		Nacks: true, ProcErrors: true, Filters: true, Conditions: true, Workers: true,
+		// (no destination rejections here: with a fan-out a rejection makes the default engine's run
+		// fail by itself with a recoverable error, and a force stop that lands in that recovery
+		// window is the known finding force-stop-lost/v1/run-already-ended, which the history can
+		// only tell apart by the order of the logged call and the status write - not reliable on a
+		// loaded machine; C01/C07 cover rejections, C10/C11 the recovery window)
+		ProcErrors: true, Filters: true, Conditions: true, Workers: true,
 		UnlimitedDLQ: true, Holds: true, GateCalls: 35,
 	}
 }
